@@ -103,6 +103,14 @@ MUTANTS = [
       "  let moving := addMoving new s.atoms.rows.length\n  let res :=",
       "  let moving := addMoving s.ctx.template s.atoms.rows.length\n  let res :=",
       ["C05"], "attempt_addition: the indices of the added rows are counted with the size of exchange_atoms, not of to_add_atoms"),
+    M("machine-compexch-deletion-keeps-member-preselection", "Machine", "QModel/Machine.lean",
+      "    let s := clearExch s0 r\n",
+      "    let s := s0\n",
+      ["C03"], "composite deletion: a one-shot pre-selection (to_delete_label / to_add_atoms) placed on a member is not dropped (the code before the repair)"),
+    M("machine-compexch-insertion-keeps-to-delete-label", "Machine", "QModel/Machine.lean",
+      "    compExchAddLoop rs ok1 (clearExch s2 r)",
+      "    compExchAddLoop rs ok1 (s2.setObj r { s2.obj r with toAdd := none })",
+      ["C03"], "composite insertion: only to_add_atoms of a member is reset, a pre-selected to_delete_label stays (the code before the repair)"),
     M("machineio-addtwice-single-template", "MachineIO", "QModel/MachineIO.lean",
       "{ s.obj r with toAdd := some (s.ctx.template ++ s.ctx.template) }) ps",
       "{ s.obj r with toAdd := some s.ctx.template }) ps",
